@@ -9,13 +9,31 @@ theorem states_length (step : P → M → P) : ∀ (p : P) (ms : List M), (state
   | p, m :: ms => by simp [states, states_length step (step p m) ms]
 
 theorem buildLoop_snd (step : P → M → P) (hmc : P → Nat) (hash : P → H) :
-    ∀ (p : P) (ms : List M) (acc : List H), (buildLoop step hmc hash p ms acc).2 = (states step p ms).getLast (by
-      cases ms <;> simp [states])
-  | p, [], acc => by simp [buildLoop, states]
+    ∀ (p : P) (ms : List M) (acc : List H), (buildLoop step hmc hash p ms acc).2 = ms.foldl step p
+  | p, [], acc => by simp [buildLoop]
   | p, m :: ms, acc => by
-    simp only [buildLoop, states]
-    rw [buildLoop_snd step hmc hash (step p m) ms]
-    rw [List.getLast_cons]
+    simp only [buildLoop, List.foldl_cons]
+    exact buildLoop_snd step hmc hash (step p m) ms _
+
+theorem states_getLast? (step : P → M → P) : ∀ (p : P) (ms : List M), (states step p ms).getLast? = some (ms.foldl step p)
+  | p, [] => by simp [states]
+  | p, m :: ms => by
+    simp only [states, List.foldl_cons]
+    rw [List.getLast?_cons, states_getLast? step (step p m) ms]
+    rfl
+
+theorem states_last_index (step : P → M → P) (p : P) (ms : List M) :
+    (states step p ms)[ms.length]? = some (ms.foldl step p) := by
+  have h := states_getLast? step p ms
+  rw [List.getLast?_eq_getElem?, states_length] at h
+  simpa using h
+
+theorem states_append (step : P → M → P) : ∀ (p : P) (ms : List M) (m : M),
+    states step p (ms ++ [m]) = states step p ms ++ [step (ms.foldl step p) m]
+  | p, [], m => by simp [states]
+  | p, a :: ms, m => by
+    simp only [List.cons_append, states, List.foldl_cons]
+    rw [states_append step (step p a) ms m]
 
 /-- generalised statement for the induction: with accumulator `acc` the result is `acc ++` all hashes when no zeroing
     move occurs, and the hashes from the last zeroing position otherwise -/
